@@ -1,11 +1,21 @@
 #!/bin/bash
 # Rebuilds the simulator against the current working tree of /repo.
+# db/fs is compiled against visim/simfs through an overlay made from the current sources.
 set -eu
 VERIF="$(cd "$(dirname "$0")" && pwd)"
 export GOFLAGS=-mod=mod GOPROXY=off GOSUMDB=off GOTOOLCHAIN=local
 mkdir -p "$VERIF/bin"
-cd "$VERIF/sim"
-cp /repo/go.sum "$VERIF/sim/go.sum" 2>/dev/null || true
 exec 9>"$VERIF/bin/.build.lock"
 flock 9
-go build -o "$VERIF/bin/visim" ./cmd/visim
+cd "$VERIF/sim"
+cp /repo/go.sum "$VERIF/sim/go.sum"
+SCR="$(mktemp -d "${TMPDIR:-/tmp}/visim-ov.XXXXXX")"
+trap 'rm -rf "$SCR"' EXIT
+go build -o "$VERIF/bin/fsrewrite" ./cmd/fsrewrite
+"$VERIF/bin/fsrewrite" /repo/db/fs "$SCR/fs" "$SCR/overlay.json"
+go build -overlay "$SCR/overlay.json" -o "$VERIF/bin/visim" ./cmd/visim
+if [ "${1:-}" = "C19" ] || [ "${1:-}" = "all" ]; then
+  if [ -d "$VERIF/sim/cmd/visimrace" ]; then
+    go build -race -overlay "$SCR/overlay.json" -o "$VERIF/bin/visim-race" ./cmd/visimrace
+  fi
+fi
